@@ -265,6 +265,8 @@ inline World run_world(const Cfg &C, uint64_t seed, bool want_log = false)
 	sched::Sched S(N);
 	S.horizon = 5000000;
 	sched::Net ucast(N), bcast(N);
+	size_t TB = T;                                          // resilience of the broadcast layer: largest t' <= t with 3t' < n
+	while (TB > 0 && 3 * TB >= N) TB--;                     // (differs from t only in the n = 2t+1 cells of family dssmin)
 	const size_t NR = N - 1;                                // reduced signer set {1..n-1}
 	size_t TR = T;
 	while (TR > 0 && 3 * TR >= NR) TR--;
@@ -357,7 +359,7 @@ inline World run_world(const Cfg &C, uint64_t seed, bool want_log = false)
 		const bool sw_sign = fl && B.kind == BUILTIN, sw_kg = fl && B.kind == BUILTIN && B.in_keygen;
 		sched::MemAiou aiou(N, i, &ucast, &S, aiounicast::aio_scheduler_roundrobin, to);
 		sched::MemAiou aiou2(N, i, &bcast, &S, aiounicast::aio_scheduler_roundrobin, to);
-		CachinKursawePetzoldShoupRBC rbc(N, T, i, &aiou2, aiounicast::aio_scheduler_roundrobin, to);
+		CachinKursawePetzoldShoupRBC rbc(N, TB, i, &aiou2, aiounicast::aio_scheduler_roundrobin, to);
 		sched::MemAiou *aiouR = nullptr, *aiou2R = nullptr;
 		CachinKursawePetzoldShoupRBC *rbcR = nullptr;
 		if (reduced && i > 0)
